@@ -803,6 +803,10 @@ XProg(v) ==
          [mk(<<FuncIn("PW", "b", <<>>, "W1", FALSE, FALSE)>>,
              <<SetD("SetB", "b", <<ItL(1)>>), [SetD("Default", "c", <<ItS(1)>>) EXCEPT !.grp = "=alias"]>>,
              <<XInj("Inject", <<>>, "W1", <<ItS(2)>>, 1)>>) EXCEPT !.atoms = XAtoms \o <<TokIn("W1", "d")>>]
+    [] v = "multi-name-var-sets-conflict" ->    \* the second name of a multi-name var spec holds the provider that conflicts with a direct item
+         mk(<<XF("P3", <<>>, "T3"), XF("P2", <<>>, "T2"), XF("P2b", <<"T3">>, "T2"), XF("P1", <<"T2">>, "T1")>>,
+            <<[SetD("SetA", "a", <<ItL(1)>>) EXCEPT !.grp = "g"], [SetD("SetB", "a", <<ItL(1), ItL(2)>>) EXCEPT !.grp = "g"]>>,
+            <<XInj("Inject", <<>>, "T1", <<ItS(2), ItL(3), ItL(4)>>, 1)>>)
     [] v = "same-set-twice-direct" ->          \* one set listed twice in the same call
          mk(<<XF("P2", <<>>, "T2"), XF("P1", <<"T2">>, "T1")>>, <<SetD("SetA", "a", <<ItL(1)>>)>>,
             <<XInj("Inject", <<>>, "T1", <<ItS(1), ItL(2), ItS(1)>>, 1)>>)
@@ -825,7 +829,7 @@ XVariants == {"star-foreign-tag-missing", "star-foreign-tag-ok", "two-files-firs
               "cycle-through-pointer-types", "cycle-behind-bound-interface", "bind-to-field-type", "variadic-dup-param", "arg-returned-directly-full-sig",
               "struct-both-forms-plus-superfluous", "same-name-packages-one-unused", "blank-param-conflicts-with-set", "unnamed-param-conflicts-with-set", "embed-in-injector-file", "same-name-packages-poorer-set", "multi-name-var-sets-bind", "multi-name-var-sets-badsig",
               "value-in-shared-set", "two-files-first-unused", "structlit-dup-fields", "foreign-struct-sole-reference",
-              "bind-three-sets-deep", "set-through-alias-only-path"}
+              "bind-three-sets-deep", "set-through-alias-only-path", "multi-name-var-sets-conflict"}
 FamilyX(p, vs) == \E v \in vs : p = XProg(v)
 
 (* ======================================================================== *)
